@@ -1,7 +1,7 @@
 """AST pattern hooks shared by several specs (cxx2c side)"""
 import re
 
-from cxx2c import unwrap, string_literal_of, strip_cv, qual, Unsupported
+from cxx2c import unwrap, string_literal_of, strip_cv, qual, Unsupported, TRANSPARENT
 
 
 def param_hook(prefix='nv_param_'):
@@ -172,6 +172,81 @@ def lambda_call_hook(callee, stub):
                 args.append(c['name'])
         P.note(f'{callee}(.., lambda #{j}) -> {stub}_{j}')
         return f'{stub}_{j}({", ".join(args)})'
+    return h
+
+
+def lambda_stub_hook(callee, stub, lambda_cnames, body):
+    """callee(a0, .., ak, [captures](..) {..})  ->  <stub>_<j>(a0, .., ak, [self,] <captures in capture order>), AND the C text of that
+    stub is GENERATED (into the unit's prototypes) from the lambda as it is in the source now, so that a change of the capture
+    list changes stub, call and the extracted body together (nothing is pinned by a hand-written prototype):
+
+        <ret> <lambda_cnames[j]>([S* self,] <operator() parameters>, <capture parameters>);      // = the signature Fn(.., lambda_index=j,
+        static void <stub>_<j>(T0 nv_a0, .., Tk nv_ak, [S* self,] <capture parameters>) { <body> }   //   captures=True) prints
+
+    `body` is the spec's C statement for the callee's contract (e.g. "the callback runs once, at the ghost position, iff the
+    value is given"); in it nv_a0..nv_ak are the callee's other arguments (default passing: glvalues by address) and
+    `@CALL(x, y)` is the call of the lambda body with operator() arguments x, y.  `self` is passed whenever the enclosing
+    function has a self struct (the lambda Fn must be declared with the same self_struct), whether or not `this` is captured."""
+    from astload import lambda_captures as caps_of, lambda_call_operator
+    from cxx2c import return_type_of
+
+    def h(P, n):
+        if n.get('kind') != 'CallExpr' or len(n.get('inner', [])) < 2:
+            return None
+        rd = unwrap(n['inner'][0]).get('referencedDecl') or {}
+        if rd.get('name') != callee:
+            return None
+        lam = lambda_arg(n['inner'][-1])
+        if lam is None:
+            return None
+        seen = P.__dict__.setdefault('_lambda_calls', {}).setdefault(callee, [])
+        if lam.get('id') not in seen:
+            seen.append(lam.get('id'))
+        j = seen.index(lam.get('id'))
+        if j >= len(lambda_cnames):
+            raise Unsupported(f'{callee}: lambda #{j} has no extracted body in the spec')
+        op = lambda_call_operator(lam)
+        if op is None:
+            raise Unsupported(f'{callee}: lambda without a call operator')
+        lead_params, lead_args = [], []
+        for k, a in enumerate(n['inner'][1:-1]):
+            u = a           # the same decision as Printer.arg: glvalues (bound to references) by address, prvalues by value
+            while u.get('kind') in TRANSPARENT and u.get('kind') != 'MaterializeTemporaryExpr':
+                u = u['inner'][0]
+            c = P.ctype(u['type'])
+            if u.get('valueCategory') in ('lvalue', 'xvalue'):
+                c += '*'
+            lead_params.append(f'{c} nv_a{k}')
+            lead_args.append(P.arg(a))
+        op_params = [f'{P.ctype(q["type"])} {q.get("name", f"nv_unnamed{k}")}' for k, q in enumerate(c for c in op['inner'] if c['kind'] == 'ParmVarDecl')]
+        cap_params, cap_args, cap_names = [], [], []
+        for c in caps_of(lam):
+            if c['this']:
+                continue
+            vt = c['var_type'].get('qualType', '').rstrip()
+            ct = P.ctype(c['var_type'])
+            if c['byref']:
+                if not vt.endswith('&'):
+                    ct += '*'
+                    cap_args.append(c['name'] if c['id'] in P.byref_captures else f'&{c["name"]}')
+                else:
+                    cap_args.append(c['name'])
+            else:
+                if vt.endswith('&'):
+                    raise Unsupported(f'by-copy capture of the reference {c["name"]}')
+                cap_args.append(c['name'])
+            cap_params.append(f'{ct} {c["name"]}')
+            cap_names.append(c['name'])
+        selfp = [f'{P.self_struct}* self'] if P.self_struct else []
+        selfa = ['self'] if P.self_struct else []
+        lname = lambda_cnames[j]
+        ret = P.ctype_q(return_type_of(op['type']['qualType']))
+        proto = f'{ret} {lname}({", ".join(selfp + op_params + cap_params)});'
+        call = lambda m: f'{lname}({", ".join(selfa + [x.strip() for x in m.group(1).split(",")] + cap_names)})'
+        text = re.sub(r'@CALL\(([^()]*)\)', call, body)
+        P.protos[f'{stub}_{j}'] = f'{proto}\nstatic void {stub}_{j}({", ".join(lead_params + selfp + cap_params)})\n{{ {text} }}'
+        P.note(f'{callee}(.., lambda #{j}) -> generated {stub}_{j} calling {lname}')
+        return f'{stub}_{j}({", ".join(lead_args + selfa + cap_args)})'
     return h
 
 
